@@ -228,6 +228,9 @@ def analyse_legacy(proj, res):
                 if last_ts is None:
                     bad("a step is taken before any time step was computed", ln, "legacy-nots")
                     continue
+                if isinstance(dtv[1], Lin) and not entails(cons, Con(dtv[1], ">")):
+                    bad("a step of length %r is taken on a path that does not make it POSITIVE (a truthiness test `if dt:` lets a NEGATIVE step through -- a save time already behind the field makes the integrator run backwards): p < 0 / NaN" % (dtv[1],), ln, "legacy-negative")
+                    continue
                 if last_ts[1] != fid or last_ts[2] != nbefore:
                     bad("the time step used by a step was computed from another state of the field (%s step(s) earlier): not CFL*dx/lambda of the current state" % (nbefore - last_ts[2] if last_ts[1] == fid else "another field,"), ln, "legacy-stale")
                     continue
